@@ -2,6 +2,7 @@ CONSTANTS
   Families = {}
   Entries = {}
   SrvEntries = {}
+  CtlEntries = {}
   PqlEntries = {}
   EnvEntries = {}
   MsgEntries = {}
